@@ -1,0 +1,82 @@
+/* -*- Mode: C; c-basic-offset:4 ; indent-tabs-mode:nil ; -*- */
+/*
+ * Verification hooks (only active when compiled with -DABT_VERIF).
+ * With the guard off every macro below expands to nothing.  With the guard on
+ * the hooks call through function pointers that are NULL unless a test harness
+ * registers them, so a guard-on library still behaves normally.
+ */
+
+#ifndef ABTI_VERIF_H_INCLUDED
+#define ABTI_VERIF_H_INCLUDED
+
+#ifdef ABT_VERIF
+#include <stdint.h>
+
+typedef struct ABTI_verif_hooks_t {
+    /* Event sink.  Always called between lock() and unlock(). */
+    void (*ev)(int kind, uintptr_t a, uintptr_t b, uintptr_t c);
+    /* Global leaf "trace lock": makes <atomic operation + its log record> one
+     * indivisible step so that the logged order is the real order.  lock() may
+     * first perturb scheduling (sched_yield / short spin). */
+    void (*lock)(void);
+    void (*unlock)(void);
+    /* Virtual clock (seconds) or NULL. */
+    double (*clock)(void);
+} ABTI_verif_hooks_t;
+
+extern ABTI_verif_hooks_t ABTI_verif_hooks;
+
+enum ABTI_verif_event_kind {
+    ABTI_VEV_SPIN_ACQ = 1,  /* a = lock */
+    ABTI_VEV_SPIN_TRY = 2,  /* a = lock, b = 1 if failed (already locked) */
+    ABTI_VEV_SPIN_REL = 3,  /* a = lock */
+    ABTI_VEV_WL_ENQ = 10,   /* a = waitlist, b = node, c = 0 ext / 1 ULT / 2 timed */
+    ABTI_VEV_WL_SIGNAL = 11, /* a = waitlist, b = woken node or 0 */
+    ABTI_VEV_WL_WAKE = 12,  /* a = waitlist, b = node woken by a broadcast */
+    ABTI_VEV_WL_BCAST = 13, /* a = waitlist: broadcast finished (list empty) */
+    ABTI_VEV_WL_TIMEOUT = 14, /* a = waitlist, b = node, c = is_timedout */
+    ABTI_VEV_WL_RETURN = 15, /* a = waitlist, b = node: waiter continues */
+    ABTI_VEV_USER = 1000    /* harness-defined kinds start here */
+};
+
+#define ABTI_VERIF_ON() (ABTI_verif_hooks.ev != NULL)
+/* One self-contained record. */
+#define ABTI_VERIF_EV(kind, a, b, c)                                           \
+    do {                                                                       \
+        if (ABTI_verif_hooks.ev) {                                             \
+            ABTI_verif_hooks.lock();                                           \
+            ABTI_verif_hooks.ev((kind), (uintptr_t)(a), (uintptr_t)(b),        \
+                                (uintptr_t)(c));                               \
+            ABTI_verif_hooks.unlock();                                         \
+        }                                                                      \
+    } while (0)
+/* Bracket an existing atomic operation: BEGIN; <operation>; END(record). */
+#define ABTI_VERIF_BEGIN()                                                     \
+    do {                                                                       \
+        if (ABTI_verif_hooks.ev)                                               \
+            ABTI_verif_hooks.lock();                                           \
+    } while (0)
+#define ABTI_VERIF_END(kind, a, b, c)                                          \
+    do {                                                                       \
+        if (ABTI_verif_hooks.ev) {                                             \
+            ABTI_verif_hooks.ev((kind), (uintptr_t)(a), (uintptr_t)(b),        \
+                                (uintptr_t)(c));                               \
+            ABTI_verif_hooks.unlock();                                         \
+        }                                                                      \
+    } while (0)
+
+#else /* !ABT_VERIF */
+
+#define ABTI_VERIF_EV(kind, a, b, c)                                           \
+    do {                                                                       \
+    } while (0)
+#define ABTI_VERIF_BEGIN()                                                     \
+    do {                                                                       \
+    } while (0)
+#define ABTI_VERIF_END(kind, a, b, c)                                          \
+    do {                                                                       \
+    } while (0)
+
+#endif /* ABT_VERIF */
+
+#endif /* ABTI_VERIF_H_INCLUDED */
